@@ -741,3 +741,31 @@ package types
 //@   for C11
 //@   modifies *
 //@   atcall Sign requires [signsTheHashItsSignerVerifies] len(hash) == 32 && (forall i int :: 0 <= i && i < 32 ==> hash[i] == signerHashOf(signer, tx)[i])
+
+// ---------------------------------------------------------------- C02: which votes reach the tally
+//@ func (vs *ValidatorSet) GetByIndex(index uint32) (address common.Address, val *Validator)
+//@   for C02 C12
+//@   requires vs != nil && len(vs.Validators) <= 4294967295 && (forall i int :: 0 <= i && i < len(vs.Validators) ==> vs.Validators[i] != nil)
+//@   ensures [outOfRangeIsNil] index >= len(vs.Validators) ==> val == nil
+//@   ensures [copyOfTheIndexedMember] index < len(vs.Validators) ==> val != nil && fresh(val) && address == vs.Validators[index].Address && val.Address == vs.Validators[index].Address && val.VotingPower == vs.Validators[index].VotingPower
+
+// Vote.Verify accepts only a vote that names the given address and whose signature verifies for that
+// address over the vote's own sign bytes.
+//@ func (vote *Vote) Verify(chainID string, address common.Address) (err error)
+//@   for C02 C11
+//@   requires vote != nil
+//@   atcall VerifySignature requires [againstTheGivenAddressAndThisVotesSignature] addr == address && signature == vote.Signature
+//@   ensures [namesThatAddress] err == nil ==> vote.ValidatorAddress == address
+
+// addVote hands a vote to the tally only if it is for this set's height, round and type, names the
+// validator at its index, carries that validator's power, and its signature was verified for that
+// validator's address.
+//@ func (voteSet *VoteSet) addVote(vote *Vote) (added bool, err error)
+//@   for C02 C01
+//@   requires voteSet != nil && voteSet.valSet != nil && (forall i int :: 0 <= i && i < len(voteSet.valSet.Validators) ==> voteSet.valSet.Validators[i] != nil)
+//@   modifies *
+//@   opt assumecallreqs
+//@   atcall addVerifiedVote requires [voteOfThisStep] vote.Height == voteSet.height && vote.Round == voteSet.round && vote.Type == voteSet.signedMsgType
+//@   atcall addVerifiedVote requires [powerOfTheIndexedValidator] val != nil && votingPower == val.VotingPower && vote.ValidatorAddress == lookupAddr && lookupAddr == val.Address
+//@   atcall Verify requires [signatureCheckedForTheIndexedValidator] chainID == voteSet.chainID && address == val.Address
+//@   ensures [nilRejected] vote == nil ==> !added && err != nil
